@@ -16,5 +16,15 @@ SmallLists    == {<<>>, <<"nonascii", "ascii">>}
 SmallControls == {"letter"}
 LogCfgsTwo    == {{"read", "send"}, {"all", "read", "send"}}
 LogCfgsOne    == {{"all", "read", "send"}}
+\* the environment configuration (Env = TRUE): sends small and larger than every buffer, one class of child output
+EnvPayloads   == {"ascii", "big"}
+EnvRead       == {"nonascii"}
+EnvLists      == {<<"ascii", "big">>}
+AwPayloads    == {"ascii"}
+AwLists       == {<<"ascii">>}
+NoControls    == {}
+ModesEnv      == {"bytes", "utf8"}
+LogCfgsEnv    == {{"all", "read", "send"}}
+LogCfgsEnv2   == {{"all", "read", "send"}, {"read"}, {"all"}}
 LogCfgsSmall  == {{}, {"all"}, {"read", "send"}, {"all", "read", "send"}}
 =============================================================================
